@@ -195,7 +195,7 @@ void runCase(uint64_t c, rt::Rng rng) {
     spy::Delays d;
     int profile = (int) rng.below(3);
     if (profile == 1) { d.afterWake = 200; d.maxUs = 100; }
-    else if (profile == 2) { d.afterWake = 100; d.condEntry = 80; d.beforeLock = 40; d.afterUnlock = 60; d.beforeNotify = 80; d.maxUs = 60; }
+    else if (profile == 2) { d.afterWake = 100; d.condEntry = 80; d.beforeLock = 40; d.afterUnlock = 60; d.beforeNotify = 80; d.maxUs = 60; d.spurious = 100; }
     char desc[160];
     snprintf(desc, sizeof desc, "history case %" PRIu64 ": threads=%d ops/thread=%d cpus=%d delayProfile=%d names=%zu depth<=%d", c, nT, opsPerThread, cpus, profile, gNameCount, gMaxDepth);
     gDesc = desc;
@@ -419,7 +419,7 @@ void runLinCase(uint64_t c, rt::Rng rng) {
     spy::Delays d;
     int profile = (int) rng.below(3);
     if (profile == 1) { d.afterWake = 300; d.maxUs = 120; }
-    else if (profile == 2) { d.afterWake = 150; d.condEntry = 100; d.beforeLock = 60; d.afterUnlock = 80; d.beforeNotify = 100; d.maxUs = 80; }
+    else if (profile == 2) { d.afterWake = 150; d.condEntry = 100; d.beforeLock = 60; d.afterUnlock = 80; d.beforeNotify = 100; d.maxUs = 80; d.spurious = 100; }
     char desc[160];
     snprintf(desc, sizeof desc, "small history case %" PRIu64 ": threads=%d ops/thread=%d delayProfile=%d", c, nT, opsPerThread, profile);
     gDesc = desc;
@@ -577,7 +577,7 @@ void runFastCase(uint64_t c, rt::Rng rng) {
     spy::Delays d;
     int profile = (int) rng.below(3);
     if (profile == 1) { d.afterWake = 100; d.maxUs = 30; }
-    else if (profile == 2) { d.beforeLock = 40; d.afterUnlock = 40; d.maxUs = 20; }
+    else if (profile == 2) { d.beforeLock = 40; d.afterUnlock = 40; d.maxUs = 20; d.spurious = 100; }
     char desc[160];
     snprintf(desc, sizeof desc, "fast churn case %" PRIu64 ": writers=%d readers=%d iterations=%d delayProfile=%d", c, writers, readers, iters, profile);
     gDesc = desc;
